@@ -238,6 +238,12 @@ class Functions(MilStream):
         for i in range(n):
             fixed.append(dict(k=rng.bytes(16).hex(), op=rng.bytes(16).hex(), opc=rng.bytes(16).hex(), rand=rng.bytes(16).hex(),
                               sqn=rng.bytes(6).hex(), amf=rng.bytes(2).hex()))
+        # SQN xor AK beginning with one / two zero octets (the field is six octets whatever its value)
+        for nz in (1, 2, 1):
+            g = rnd_cfg(rng)
+            ak = gen_autn(g["k"], g["opc"], g["rand"], bytes(6), g["amf"])[:6]
+            sqn = ak[:nz] + rng.bytes(6 - nz)
+            fixed.append(dict(k=g["k"].hex(), op=rng.bytes(16).hex(), opc=g["opc"].hex(), rand=g["rand"].hex(), sqn=sqn.hex(), amf=g["amf"].hex()))
         # runs of subscribers that share all components but ONE (an OP rotation at fixed K and RAND, the same challenge for two
         # keys, ...): a result may depend on nothing but the call's own arguments, whatever was computed just before
         for vary in ("opc", "k", "rand", "sqn", "amf", "op"):
